@@ -1,9 +1,11 @@
 """C12 - the key ring accepts a signature only from a fetched key valid at that time.
 
 spec -> code
-  KeyRing.tla / KeyRing_gen.tla: every scenario of the exhaustive families (single: validity boundaries;
+  KeyRing.tla / KeyRing_gen.tla: every scenario of the exhaustive families (single: validity boundaries,
+  rows with both / neither timestamp; twin: the same (server, key ID) twice with different timestamps and
+  rules; versions: every registered room version's own SignatureValidityCheck, strictness from MatrixBase;
   pair: batches, several key IDs, unsupported / unsigned, per-key fetcher behaviours; dberr: database
-  failures) and a seeded simulation of the widest family (batch) is replayed into a real
+  failures and the empty batch) and a seeded simulation of the widest family (batch) is replayed into a real
   gomatrixserverlib.KeyRing with scripted KeyDatabase / KeyFetchers (harness c12ring).
   KeyResponse.tla / KeyResponse_gen.tla: CheckKeys, ServerKeys.PublicKey and the real DirectKeyFetcher /
   PerspectiveKeyFetcher over a scripted KeyClient with really signed / mis-signed responses (c12resp).
@@ -137,16 +139,21 @@ def run(ctx):
         "garbage signatures are well-formed base64 strings that verify under no key (a non-base64 value makes "
         "VerifyJSON refuse the whole signatures object: JSON signing, not this property)",
         "the scripted database answers only for the names it is asked for",
+        "which room versions demand strict checking is taken from MatrixBase.tla (Matrix specification: v5 and later, "
+        "unstable identifiers by the base their MSC names), not from the library's table",
+        "concrete spellings (server names incl. IP literals / names differing by a suffix, key IDs differing only in "
+        "letter case or by a prefix) vary with seed mod 3; each run uses one variant",
     ]
     ctx.exhaustive = True
     ctx.notes["rule"] = (
-        "KeyRing_gen families single/pair/dberr: every scenario within the cfg bounds (requests x database entry per "
+        "KeyRing_gen families single/twin/versions/pair/dberr: every scenario within the cfg bounds (requests x database entry per "
         "wanted key x per-key behaviour of up to two fetchers x timestamps x strict/lenient); family batch: seeded "
         "TLC simulation, duplicates removed; KeyResponse_gen: every scenario of the four modes; trace: seeded random "
         "batches. distinct = distinct (family, per-request result, must-class, observed call shape) classes")
     quick = ctx.tier == "quick"
     total = 0
-    for fam in ("single", "pair", "dberr"):
+    # quick: all exhaustive families in one TLC run (KeyRing_gen_exh_quick.cfg); thorough: one run per family
+    for fam in (("exh",) if quick else ("single", "twin", "versions", "pair", "dberr")):
         total += _ring_family(ctx, fam)
     total += _ring_family(ctx, "batch", simulate=4000 if quick else 96000)
     total += _responses(ctx)
